@@ -32,7 +32,7 @@ func TestMain(m *testing.M) {
 			"findmode=FixedDistanceString_LeftToRight/patterns": 0.01, "findmode=FixedDistanceChar_LeftToRight/patterns": 0.01,
 			"findmode=FixedDistanceSets_LeftToRight/patterns": 0.01, "findmode=LiteralAfterLoop_LeftToRight/patterns": 0.003,
 			"findmode=RequiredLandmarkChain_LeftToRight/patterns": 0.005, "findmode=LeadingStrings_LeftToRight/patterns": 0.002,
-			"findmode=LeadingStrings_OrdinalIgnoreCase_LeftToRight/patterns": 0.002, "findmode=LeadingString_OrdinalIgnoreCase_LeftToRight/patterns": 0.005,
+			"findmode=LeadingStrings_OrdinalIgnoreCase_LeftToRight/patterns": 0.001, "findmode=LeadingString_OrdinalIgnoreCase_LeftToRight/patterns": 0.005,
 			"findmode=TrailingAnchor_FixedLength_LeftToRight_End/patterns": 0.003, "findmode=TrailingAnchor_FixedLength_LeftToRight_EndZ/patterns": 0.003,
 			"findmode=LeadingAnchor_LeftToRight_Beginning/patterns": 0.005, "findmode=LeadingAnchor_LeftToRight_Start/patterns": 0.003,
 			"findmode=LeadingString_RightToLeft/patterns": 0.003, "findmode=LeadingSet_RightToLeft/patterns": 0.003, "findmode=LeadingChar_RightToLeft/patterns": 0.002},
